@@ -27,7 +27,7 @@ PROPS = {
                      "Rough.Props.C05.C05_encode_decode", "Rough.Props.C05.C05_ref", "Rough.Props.C05.C05_framed",
                      "Rough.Props.C05.C05_encoded_size"],
         "streams": [{"args": ["codec"], "shards_quick": 4, "shards_thorough": 16}],
-        "ops": ["dec", "enc"],
+        "ops": ["dec", "enc", "enci"],
         "trivial": r"^dec:n=big:err$|^dec:n=0:",
         "min_nontrivial": 1000,
         "exhaustive_quick": False,
@@ -343,6 +343,8 @@ _REQS = {"args": ["reqs"], "shards_quick": 8, "shards_thorough": 16}
 # the exhaustive version-list scenarios also belong to C09: a framed request must be answered by the IETF responder or not at all
 PROPS["C09"]["streams"] = PROPS["C09"]["streams"] + [{"args": ["srv", "c12"], "shards_quick": 8, "shards_thorough": 16}]
 PROPS["C09"]["rule"] += "; plus C12's exhaustive version-list scenarios (every reply judged per socket as above)"
+PROPS["C02"]["streams"] = PROPS["C02"]["streams"] + [{"args": ["srv", "c12"], "shards_quick": 8, "shards_thorough": 16}]
+PROPS["C02"]["rule"] += "; plus C12's exhaustive version-list scenarios (every reply must verify for a request of ITS protocol)"
 for _pid, _op in (("C07", "req"), ("C12", "req"), ("C02", "grease")):
     PROPS[_pid]["streams"] = PROPS[_pid]["streams"] + [_REQS]
     PROPS[_pid]["ops"] = PROPS[_pid]["ops"] + [_op]
